@@ -36,6 +36,10 @@ FastaOk(lay, names, rows, BW) ==
         /\ lay.records[i].row = rows[i]
         /\ lay.records[i].linelens = WrapLens(Len(rows[i]), BW)
 
+(* a name in a block format: the object's name, or - for names longer than the 255 bytes the block writers are built for - a
+   prefix of it of at least 255 characters; whatever is kept, it is the same text on the header line and on every row *)
+NameKept(inFile, name) == inFile = name \/ (Len(name) > 255 /\ Len(inFile) >= 255 /\ Len(inFile) <= Len(name) /\ inFile = SubSeq(name, 1, Len(inFile)))
+
 Segment(row, k, BW) == SubSeq(row, (k - 1) * BW + 1, IF k * BW <= Len(row) THEN k * BW ELSE Len(row))
 
 BlocksOk(blocks, names, rows, BW) ==
@@ -44,7 +48,8 @@ BlocksOk(blocks, names, rows, BW) ==
        /\ \A k \in 1..Len(blocks) :
             /\ Len(blocks[k]) = Len(rows)
             /\ \A i \in 1..Len(rows) :
-                 /\ blocks[k][i].name = names[i]
+                 /\ NameKept(blocks[k][i].name, names[i])
+                 /\ blocks[k][i].name = blocks[1][i].name
                  /\ blocks[k][i].pad >= 1
                  /\ blocks[k][i].seg = Segment(rows[i], k, BW)
             \* the segments of one block start in the same text column
@@ -63,7 +68,8 @@ MsfOk(lay, names, rows, biotype, BW) ==
     /\ lay.msf_check = GCGMult(rows)
     /\ Len(lay.names) = Len(rows)
     /\ \A i \in 1..Len(rows) :
-         /\ lay.names[i].name = names[i]
+         /\ NameKept(lay.names[i].name, names[i])
+         /\ (Len(lay.blocks) > 0 /\ Len(lay.blocks[1]) = Len(rows) => lay.names[i].name = lay.blocks[1][i].name)
          /\ lay.names[i].len = Width(rows)
          /\ lay.names[i].check = GCG(rows[i])
     /\ lay.has_sep = 1
@@ -88,8 +94,10 @@ FastaLines(names, rows, BW) ==
     FoldLeft(LAMBDA acc, i : acc \o <<(<<62>> \o names[i])>> \o [k \in 1..CeilDiv(Len(rows[i]), BW) |-> Segment(rows[i], k, BW)],
              <<>>, [i \in 1..Len(rows) |-> i])
 
-BlockLines(names, rows, BW) ==
+Kept256(names) == [i \in 1..Len(names) |-> IF Len(names[i]) > 256 THEN SubSeq(names[i], 1, 256) ELSE names[i]]
+BlockLines(names0, rows, BW) ==
     LET W == Width(rows)
+        names == Kept256(names0)
         col == MaxNameLen(names) + 5
         block(k) == [i \in 1..Len(rows) |-> PadRight(names[i], col) \o Segment(rows[i], k, BW)] \o << <<>>, <<>> >>
     IN FoldLeft(LAMBDA acc, k : acc \o block(k), <<>>, [k \in 1..CeilDiv(W, BW) |-> k])
@@ -108,8 +116,9 @@ MsfLine(W, biotype, chk) ==
 MsfNameLine(name, w, W, chk) ==
     <<32, 78, 97, 109, 101, 58, 32>> \o PadRight(name, w) \o <<32, 32, 76, 101, 110, 58, 32, 32>> \o PadLeft(DigitsOf(W), 5)
     \o <<32, 32, 67, 104, 101, 99, 107, 58, 32>> \o PadLeft(DigitsOf(chk), 4) \o <<32, 32, 87, 101, 105, 103, 104, 116, 58, 32, 49, 46, 48, 48>>
-MsfLines(names, rows, biotype, BW) ==
+MsfLines(names0, rows, biotype, BW) ==
     LET W == Width(rows)
+        names == Kept256(names0)
         w == MaxNameLen(names)
     IN <<(IF biotype = 0 THEN BangAA ELSE BangNA), <<>>, MsfLine(W, biotype, GCGMult(rows)), <<>>>>
        \o [i \in 1..Len(rows) |-> MsfNameLine(names[i], w, W, GCG(rows[i]))]
@@ -121,6 +130,7 @@ MsfFailures(lay, names, rows, biotype, BW) ==
     (IF lay.bang # (IF biotype = 0 THEN "AA" ELSE "NA") \/ lay.msf_type # (IF biotype = 0 THEN "P" ELSE "N") THEN {"C15:msf-molecule-type"} ELSE {})
     \cup (IF lay.msf_len # Width(rows) \/ (\E i \in 1..Len(lay.names) : lay.names[i].len # Width(rows)) THEN {"C15:msf-declared-length"} ELSE {})
     \cup (IF lay.msf_check # GCGMult(rows) \/ Len(lay.names) # Len(rows) \/ (\E i \in 1..Len(lay.names) : i <= Len(rows) /\ lay.names[i].check # GCG(rows[i])) THEN {"C15:msf-checksum"} ELSE {})
-    \cup (IF Len(lay.names) # Len(rows) \/ (\E i \in 1..Len(lay.names) : i <= Len(rows) /\ lay.names[i].name # names[i]) THEN {"C15:msf-name-lines"} ELSE {})
+    \cup (IF Len(lay.names) # Len(rows) \/ (\E i \in 1..Len(lay.names) : i <= Len(rows) /\ (~NameKept(lay.names[i].name, names[i])
+              \/ (Len(lay.blocks) > 0 /\ Len(lay.blocks[1]) = Len(rows) /\ lay.names[i].name # lay.blocks[1][i].name))) THEN {"C15:msf-name-lines"} ELSE {})
     \cup (IF lay.has_sep # 1 \/ ~BlocksOk(lay.blocks, names, rows, BW) THEN {"C15:msf-blocks"} ELSE {})
 =============================================================================
